@@ -529,6 +529,57 @@ class View:
         return self.data
 
 
+class ZArray:
+    """1-D C array backed by a z3 array term (used for large tables indexed by symbolic values,
+    e.g. `cdef uint8 sym_to_code[256]`); bit-vector mode only"""
+
+    def __init__(self, n, t, boundscheck=False, wraparound=False, name="carray"):
+        self.n, self.t = n, ctype(t)
+        self.boundscheck, self.wraparound, self.name = boundscheck, wraparound, name
+        self.arr = z3.K(z3.BitVecSort(32), z3.BitVecVal(0, self.t.width))
+
+    @property
+    def shape(self):
+        return (CInt.const(self.n, SSIZE),)
+
+    def __len__(self):
+        return self.n
+
+    def _idx(self, i):
+        i = CInt.lift(i)
+        if i is None:
+            raise Escape("non-C index into a C array")
+        inb = (i >= 0) & (i < self.n) if not isinstance(i >= 0, bool) else ((i >= 0) and (i < self.n))
+        ok = inb if isinstance(inb, bool) else bool(inb)
+        if not ok:
+            if self.boundscheck:
+                raise IndexError(f"index out of bounds on {self.name}")
+            raise MemorySafety(f"index outside [0,{self.n}) on {self.name} (boundscheck off)")
+        return _term(i.conv(TYPES["uint32"]))
+
+    def __getitem__(self, i):
+        if isinstance(i, slice):
+            raise Escape("slice read of a z3-backed C array")
+        r = z3.simplify(z3.Select(self.arr, self._idx(i)))
+        if z3.is_bv_value(r):
+            return CInt(_wrap_py(r.as_long(), self.t), self.t)
+        return CInt(r, self.t)
+
+    def __setitem__(self, i, v):
+        if isinstance(i, slice):
+            rng = range(*i.indices(self.n))
+            vals = v if isinstance(v, list) else [v] * len(rng)
+            if len(vals) != len(rng):
+                raise ValueError("slice assignment length mismatch")
+            if len(rng) == self.n and all(x is vals[0] for x in vals):
+                self.arr = z3.K(z3.BitVecSort(32), _term(coerce(self.t, vals[0])))
+                return
+            for j, x in zip(rng, vals):
+                self.arr = z3.Store(self.arr, z3.BitVecVal(j, 32), _term(coerce(self.t, x)))
+            return
+        self.arr = z3.Store(self.arr, self._idx(i), _term(coerce(self.t, v)))
+
+
 def _select(k, vals):
     """value at symbolic index k among vals (CInt of one type)"""
     r = vals[-1]
